@@ -69,6 +69,14 @@ pub mod ber_spec {
         }
     }
 
+    // exec header record `h` carries the spec header `sh` (tag numbers >= 256 alias mod 256: Tag is u8)
+    pub open spec fn hdr_matches(h: &crate::ber::BerHeader, sh: Hdr) -> bool {
+        &&& h.length == sh.length
+        &&& h.class == sh.class
+        &&& h.constructed == sh.constructed
+        &&& h.tag as nat == sh.tag % 256
+    }
+
     // content octets of the element at the front of s
     pub open spec fn spec_content(s: Seq<u8>) -> Seq<u8>
         recommends spec_header(s) is Some
@@ -83,6 +91,53 @@ pub mod ber_spec {
     {
         let h = spec_header(s)->Some_0;
         s.subrange((h.hlen + h.length) as int, s.len() as int)
+    }
+
+    // unsigned big-endian value of an octet string
+    pub open spec fn be_u(c: Seq<u8>) -> nat
+        decreases c.len()
+    {
+        if c.len() == 0 { 0 } else { be_u(c.drop_last()) * 256 + c.last() as nat }
+    }
+
+    pub open spec fn pow256(n: nat) -> nat
+        decreases n
+    {
+        if n == 0 { 1 } else { 256 * pow256((n - 1) as nat) }
+    }
+
+    // two's complement value of an octet string (X.690 §8.3.3); empty contents read as 0
+    pub open spec fn twos(c: Seq<u8>) -> int {
+        if c.len() == 0 { 0 } else if c[0] < 128 { be_u(c) as int } else { be_u(c) - pow256(c.len()) }
+    }
+
+    // a header never describes more than the input holds (X.690 definite form over a finite input)
+    pub proof fn lemma_header_bounds(s: Seq<u8>)
+        requires spec_header(s) is Some
+        ensures
+            2 <= spec_header(s)->Some_0.hlen,
+            spec_header(s)->Some_0.hlen + spec_header(s)->Some_0.length <= s.len(),
+    {
+        lemma_ident_bounds(s);
+    }
+
+    pub proof fn lemma_high_tag_bounds(s: Seq<u8>, k: int, acc: nat)
+        requires spec_high_tag(s, k, acc) is Some, k >= 1
+        ensures spec_high_tag(s, k, acc)->Some_0.1 > k
+        decreases s.len() - k
+    {
+        if k >= 0 && k < s.len() && s[k] >= 128 {
+            lemma_high_tag_bounds(s, k + 1, acc * 128 + (s[k] % 128) as nat);
+        }
+    }
+
+    pub proof fn lemma_ident_bounds(s: Seq<u8>)
+        requires s.len() >= 1, spec_ident(s) is Some
+        ensures spec_ident(s)->Some_0.1 >= 1
+    {
+        if s[0] % 32 == 31 {
+            lemma_high_tag_bounds(s, 1, 0);
+        }
     }
 
     // spec_be is monotone in the number of octets read: every further octet multiplies by 256
